@@ -69,7 +69,8 @@ def alph(seed: int) -> dict:
     return dict(
         th_values=[[-5, 0, 10, 20, 35], [-7.5, 0, 2.5, 12, 30], [-20, -3, 0, 6.25, 18], [-1, 0, 0.5, 4, 100]][k],
         coefs=[[-1, 0.5, 2], [-2, 0.25, 3], [1.5, -0.5, 4], [-3, 1, 0.125]][k],
-        bc_x=[[0, 0.5, 1, 2, 10], [0, 0.25, 1, 3, 7.5], [0, 0.8, 1, 1.25, 100], [0, 0.1, 1, 5, 40]][k],
+        bc_x=[[0, 0.001, 0.5, 1, 2, 10, 1000], [0, 0.002, 0.25, 1, 3, 7.5, 800], [0, 0.004, 0.8, 1, 1.25, 100, 1500],
+              [0, 0.003, 0.1, 1, 5, 40, 600]][k],
         bc_far=[[1e-3, 0.5, 1, 2], [2e-3, 0.25, 1, 3], [1e-4, 0.75, 1, -2], [5e-3, 0.3, 1, 1.5]][k],
         loc=[[0.0, -1.5, 2.0], [0.0, 0.75, -3.0], [0.0, 10.0, -0.25], [0.0, 1.0, -8.0]][k],
         scale=[[1.0, 0.5, 3.0], [1.0, 0.4, 2.5], [1.0, 0.25, 7.0], [1.0, 0.8, 1.75]][k],
@@ -85,7 +86,14 @@ def alph(seed: int) -> dict:
                   [(0, None, None, 0), (0.125, -1, 1, 0), (4, None, None, 1), (-3, -4, None, 0)]][k],
         mu_menu=[[1.5, 2.0, 1.25, 3.0], [1.25, 4.0, 1.5, 2.5], [2.0, 1.1, 5.0, 1.75], [1.6, 1.2, 2.4, 10.0]][k],
         mu_top=[0.75, 0.5, 1.1, 0.9][k],
-        labels=[[1, 2, 3, 4], [3, 1, 4, 2], [10, 20, 30, 40], [4, 3, 2, 1]][k],
+        # thorough tier only
+        th_extra=[7.5, -0.1, 1e3, 0.3][k],
+        bc_x_extra=[[0.01, 0.9, 1.1, 3, 50, 1e4], [0.05, 0.99, 1.01, 4, 20, 500], [0.3, 0.7, 1.5, 6, 30, 2000],
+                    [0.02, 0.6, 1.2, 8, 90, 300]][k],
+        bc_far_extra=[[0.1, 3, 5], [0.05, 2, 4], [0.2, 2.5, -3], [0.01, 0.9, 3.5]][k],
+        loc_extra=[[5.0, -0.1], [-20.0, 0.3], [1e3, -1e-3], [2.5, -40.0]][k],
+        scale_extra=[[0.1, 10.0], [0.05, 20.0], [0.3, 4.0], [0.2, 50.0]][k],
+        labels=[[2, 4, 1, 3, 5], [3, 1, 4, 2, 5], [10, 20, 50, 30, 40], [5, 4, 3, 2, 1]][k],
     )
 
 
@@ -223,11 +231,11 @@ def exc_name(e):
 
 
 # =========================================================================== (pw) piecewise
-def threshold_lists(values):
-    """All admissible lists of length 2..4: strictly increasing numbers, None only at the ends, not all None."""
+def threshold_lists(values, max_len=4):
+    """All admissible lists of length 2..max_len: strictly increasing numbers, None only at the ends, not all None."""
     out = []
     vals = sorted(values)
-    for n in (2, 3, 4):
+    for n in range(2, max_len + 1):
         for first_none in (False, True):
             for last_none in (False, True):
                 k = n - int(first_none) - int(last_none)
@@ -244,7 +252,7 @@ def pw_grid(th):
     nums = [t for t in th if t is not None]
     g = set()
     for t in nums:
-        g.update((t - 0.5, float(t), t + 0.5))
+        g.update((t - 0.5, float(t), t + 0.5, math.nextafter(t, -math.inf), math.nextafter(t, math.inf)))
     g.add(min(nums) - 7.0)
     g.add(max(nums) + 9.0)
     for a, b in zip(nums[:-1], nums[1:]):
@@ -410,6 +418,9 @@ def check_pw(cfg, rec: Rec):
                     g = vals[r]
                     w = pw_where(x, th)
                     rec.case((helper, kind, form, th, coefs, x) if e != 0 else None, (x, g), outcome=f'pw:{helper}:{w}')
+                    if cfg.get('sample') and not rec.samples and w == 'interior' and e != 0:
+                        rec.sample(dict(helper=helper, thresholds=th, coefficients=list(coefs), passed_as=kind, x=x,
+                                        engine_value=g, closed_form=e))
                     if not close(g, e):
                         rec.violation(f'C17|{helper}|value,{cls}',
                                       f'{helper}(x, {th}, {kind} {list(coefs)}) at x={x}: {g}, closed form {e}',
@@ -470,8 +481,8 @@ def check_pw(cfg, rec: Rec):
 
 
 # =========================================================================== (bc) Box-Cox
-def bc_lambdas(far):
-    near = [1e-6, 9.9e-6, 1e-5, 1.1e-5]
+def bc_lambdas(far, extra_near=()):
+    near = [1e-6, 9.9e-6, math.nextafter(1e-5, 0.0), 1e-5, math.nextafter(1e-5, 1.0), 1.1e-5] + list(extra_near)
     lams = [0.0]
     for v in near + list(far):
         lams.append(v)
@@ -519,6 +530,8 @@ def check_bc(cfg, rec: Rec):
         e = ref_boxcox(x, lam)
         results[(x, lam)] = g
         rec.case(('bc', form, cfg.get('xform'), x, lam) if x != 1 else None, (x, lam, g), outcome=f'bc:{br}')
+        if cfg.get('sample') and not rec.samples and br == 'series' and x not in (0, 1):
+            rec.sample(dict(helper='boxcox', x=x, lam=lam, passed_as=form, branch=br, engine_value=g, closed_form=e))
         if not (abs(g - e) <= bc_tol(x, lam, e)):
             sign = '+' if lam > 0 else '-'
             rec.violation(f'C17|boxcox|closed-form,branch={br}',
@@ -613,13 +626,19 @@ def dist_param(kind, name, value, other=None):
         return Beta(name, fnum(value), None, None, 0), None
     if kind == 'fixed':
         return Beta(name, fnum(value), None, None, 1), None
+    if kind == 'column':
+        from biogeme.expressions import Variable
+        return Variable('p_' + name), ('column', 'p_' + name, float(value))
+    if kind == 'expr':
+        # an expression of a parameter whose value is exactly the tested one: 2 * Beta(value / 2)
+        return Numeric(2.0) * Beta(name, value / 2.0, None, None, 0), None
     if kind == 'dict':
         # the Beta carries another (admissible) value; the value under test arrives through betas=
         return Beta(name, other, None, None, 0), (name, float(value))
     raise ValueError(kind)
 
 
-DIST_KINDS = ['num', 'numeric', 'free', 'fixed', 'dict']
+DIST_KINDS = ['num', 'numeric', 'free', 'fixed', 'dict', 'expr', 'column']
 
 
 def other_point(dist, params):
@@ -699,6 +718,8 @@ def check_dist(cfg, rec: Rec):
     else:
         raise ValueError(dist)
 
+    extra_cols = {}
+
     def build():
         objs, bd = [], {}
         if kind == 'default':
@@ -707,9 +728,17 @@ def check_dist(cfg, rec: Rec):
         for n, v in zip(names, params):
             o, entry = dist_param(kind, n, v, other[n])
             objs.append(o)
-            if entry:
+            if entry and entry[0] == 'column':
+                extra_cols[entry[1]] = entry[2]
+            elif entry:
                 bd[entry[0]] = entry[1]
         return objs, (bd or None)
+
+    def table(points):
+        cols = {'x': points}
+        for cname, cval in extra_cols.items():
+            cols[cname] = [cval] * len(points)
+        return make_db(cols)
 
     def make_expr(objs):
         x = Variable('x')
@@ -721,7 +750,7 @@ def check_dist(cfg, rec: Rec):
     try:
         objs, bd = build()
         expr = make_expr(objs)
-        database = make_db({'x': grid})
+        database = table(grid)
         vals = engine_values(rec, expr, database, bd)
     except RuntimeError:
         raise
@@ -735,6 +764,9 @@ def check_dist(cfg, rec: Rec):
         rg = region(x)
         informative = (e != 0) or rg not in ('in',)
         rec.case((dist, kind, tuple(params), x) if informative else None, (x, g), outcome=f'dist:{dist}:{rg}')
+        if cfg.get('sample') and not rec.samples and e != 0:
+            rec.sample(dict(helper=dist, parameters=dict(zip(names, params)), passed_as=kind, x=x, region=rg,
+                            engine_value=g, textbook_value=e))
         if not close(g, e, rel, ab):
             rec.violation(f'C17|{dist}|value,region={rg}',
                           f'{dist}(x={x!r}; {dict(zip(names, params))} as {kind}) = {g!r}; textbook value {e!r}',
@@ -760,7 +792,7 @@ def check_dist(cfg, rec: Rec):
         else:
             pts = ts
         objs, bd = build()
-        v = engine_values(rec, make_expr(objs), make_db({'x': pts}), bd)
+        v = engine_values(rec, make_expr(objs), table(pts), bd)
         if integral_kind == 'logx':
             v = [vv * p for vv, p in zip(v, pts)]
         total += simpson(v, h)
@@ -800,13 +832,16 @@ def seg_configs(a, tier):
     else:
         ident = lambda s: [m[1] for m in s['mapping']] == CAT_NAMES[VAR_NAMES.index(s['var'])][:len(s['mapping'])]  # noqa
         structs += [[s, t] for s in g_side for t in i_side if ident(s) or ident(t)]
+        # three variables: a third one with two categories, every reference
+        third = [dict(var='age', mapping=[[41, 'young'], [42, 'old']], ref=r) for r in (None, 'young', 'old')]
+        structs += [[s, t, u] for s in g_side for t in i_side for u in third if ident(s) and ident(t)]
     cfgs = []
     for si, st in enumerate(structs):
         for bi, beta in enumerate(a['seg_beta']):
             if tier == 'quick' and bi != 0 and (si + bi) % 2:
                 continue
             cfgs.append(dict(struct=st, beta=list(beta), varform=['name', 'object'][(si + bi) % 2],
-                             api=['class', 'function'][(si // 2 + bi) % 2]))
+                             api=['class', 'function'][(si // 2 + bi) % 2], prefix=['segmented', 'my_seg'][(si // 3 + bi) % 2]))
     return cfgs
 
 
@@ -829,8 +864,9 @@ def check_seg(cfg, rec: Rec):
     refs = [s['ref'] if s['ref'] is not None else s['mapping'][0][1] for s in struct]
 
     try:
-        S = seg.Segmentation(beta, tuples)
-        expr = S.segmented_beta() if cfg['api'] == 'class' else seg.segmented_beta(beta, tuples)
+        prefix = cfg.get('prefix', 'segmented')
+        S = seg.Segmentation(beta, tuples, prefix=prefix)
+        expr = S.segmented_beta() if cfg['api'] == 'class' else seg.segmented_beta(beta, tuples, prefix=prefix)
         code = S.segmented_code()
     except Exception as e:  # noqa
         rec.case(('seg', 'raised', str(cfg)), exc_name(e), outcome='seg:raised')
@@ -865,7 +901,7 @@ def check_seg(cfg, rec: Rec):
     code_expr = None
     try:
         lines = code.split('\n')
-        target = f'segmented_{beta.name}'
+        target = f'{prefix}_{beta.name}'
         exec('\n'.join(lines[:-1]), ns)  # noqa: S102  (the library's own generated specification code)
         if lines[-1].startswith(target + ' = '):
             exec(lines[-1], ns)  # noqa: S102
@@ -932,6 +968,9 @@ def check_seg(cfg, rec: Rec):
                     e = e + theta[f'B_{cat}']
             oc = 'seg:' + ('shifted' if in_shift else 'reference') + ('' if mapped else '+unmapped')
             rec.case(('seg', mode, str(cfg), row) if in_shift else None, (row, vals[ri]), outcome=oc)
+            if cfg.get('sample') and not rec.samples and in_shift and mode == 'values':
+                rec.sample(dict(helper='segmented_beta', structure=struct, beta=cfg['beta'], row=list(row), parameter_values=theta,
+                                engine_value=vals[ri], reference_plus_shifts=e, generated_code=code))
             if not close(vals[ri], e):
                 rec.violation(f'C17|segmentation|value=reference+shift,{tag}',
                               f'segmented parameter {cfg["beta"]} over {struct} on row {dict(zip([s["var"] for s in struct], row))} '
@@ -965,7 +1004,7 @@ NEST_KINDS = ['float', 'free', 'fixed', 'expr']
 def nest_configs(a, tier):
     cfgs = []
     idx = 0
-    for J in (2, 3, 4):
+    for J in ((2, 3, 4) if tier == 'quick' else (2, 3, 4, 5)):
         labelings = [list(range(1, J + 1)), [l for l in a['labels'] if l in sorted(a['labels'])[:J]]]
         if labelings[1] == labelings[0]:
             labelings = labelings[:1]
@@ -975,10 +1014,10 @@ def nest_configs(a, tier):
                     for assign in ('distinct', 'equal'):
                         if assign == 'equal' and len(st['nests']) < 2:
                             continue
-                        pdicts = ['none'] if kind == 'float' else ['none', 'override']
+                        pdicts = ['none'] if kind == 'float' else ['none', 'override', 'partial']
                         for pd_ in pdicts:
                             combos = [(m, n) for m in ('default', 'one', 'top') for n in ('none', 'ordered', 'permuted')]
-                            if tier == 'quick':
+                            if tier == 'quick' or J == 5:
                                 combos = [combos[idx % 9], combos[(idx + 4) % 9]]
                             for mu, names in combos:
                                 cfgs.append(dict(J=J, labels=labels, alone=st['alone'], nests=st['nests'], kind=kind,
@@ -1005,7 +1044,7 @@ def check_nest(cfg, rec: Rec, a=None):
         val = menu[0] if cfg['assign'] == 'equal' else menu[i % len(menu)]
         new = val
         name = f'mu_{chr(ord("z") - i)}'  # ASCII order opposite to nest order
-        if cfg['pdict'] == 'override':
+        if cfg['pdict'] == 'override' or (cfg['pdict'] == 'partial' and i == 0):
             new = menu[(i + 1) % len(menu)] if cfg['assign'] == 'distinct' else menu[1]
             override[name] = new
         if cfg['kind'] == 'float':
@@ -1016,14 +1055,14 @@ def check_nest(cfg, rec: Rec, a=None):
             p = Beta(name, val, 1, None, 1)
         else:  # an expression of a parameter: 2 * b with b = value / 2
             p = Numeric(2.0) * Beta(name, val / 2.0, None, None, 0)
-            if cfg['pdict'] == 'override':
+            if name in override:
                 override[name] = new / 2.0
         mu_m.append(new)
         alts = [labels[j] for j in members]
         nests.append(OneNestForNestedLogit(nest_param=p, list_of_alternatives=alts, name=f'n{i}')
                      if cfg['syntax'] == 'object' else (p, alts))
     kwargs = {}
-    if cfg['pdict'] == 'override':
+    if cfg['pdict'] in ('override', 'partial'):
         kwargs['parameters'] = dict(override)
     top = 1.0
     if cfg['mu'] == 'one':
@@ -1070,6 +1109,8 @@ def check_nest(cfg, rec: Rec, a=None):
         else:
             e, clause = 0.0, 'across-nests' if (x in nest_of and y in nest_of) else 'alone'
         rec.case(('nest', str(cfg), x, y) if clause == 'within-nest' else None, (x, y, g), outcome=f'nest:{clause}')
+        if cfg.get('sample') and not rec.samples and clause == 'within-nest':
+            rec.sample(dict(helper='NestsForNestedLogit.correlation', cfg=cfg, pair=[x, y], value=g, expected=e))
         if not (close(g, e) and close(g2, e)):
             rec.violation(f'C17|nested-correlation|{clause},names={cfg["names"]}',
                           f'correlation of alternatives {x},{y} (looked up by label {name_of[x]!r},{name_of[y]!r}) = {g} / {g2}; '
@@ -1082,40 +1123,50 @@ def tasks(tier, seed):
     a = alph(seed)
     t = []
     # (pw)
-    ths = threshold_lists(a['th_values'])
+    if tier == 'quick':
+        ths = threshold_lists(a['th_values'], 4)
+    else:
+        ths = threshold_lists(a['th_values'] + [a['th_extra']], 5)
     ths = [[None, None], [None, None, None]] + ths
-    for th in ths:
-        t.append(dict(part='pw', cfgs=[dict(th=th, coefs=a['coefs'], kinds='rotate' if tier == 'quick' else 'all', seed=seed)]))
+    for i, th in enumerate(ths):
+        # K = 5 has 81 coefficient vectors: the passing form rotates over them; all forms for K <= 4
+        kinds = 'all' if len(th) <= 4 else 'rotate'
+        t.append(dict(part='pw', cfgs=[dict(th=th, coefs=a['coefs'], kinds=kinds, seed=seed, sample=(i == 40))]))
     # (bc)
-    lams = bc_lambdas(a['bc_far'])
+    if tier == 'quick':
+        lams, bxs = bc_lambdas(a['bc_far']), a['bc_x']
+    else:
+        lams, bxs = bc_lambdas(a['bc_far'] + a['bc_far_extra'], [5e-6, 2e-5, 1e-4]), a['bc_x'] + a['bc_x_extra']
     forms = ['var', 'num', 'free', 'fixed', 'dict']
     for f in forms:
-        t.append(dict(part='bc', cfgs=[dict(form=f, xs=a['bc_x'], lams=lams, xform='var', seed=seed)]))
+        t.append(dict(part='bc', cfgs=[dict(form=f, xs=bxs, lams=lams, xform='var', seed=seed, sample=(f == 'free'))]))
     for f in (['num', 'free'] if tier == 'quick' else ['num', 'free', 'fixed']):
-        t.append(dict(part='bc', cfgs=[dict(form=f, xs=a['bc_x'], lams=lams, xform='num', seed=seed)]))
+        t.append(dict(part='bc', cfgs=[dict(form=f, xs=bxs, lams=lams, xform='num', seed=seed)]))
     # (dist)
     nodes = 2000 if tier == 'quick' else 20000
-    two = [(m, s) for m in a['loc'] for s in a['scale']]
+    locs, scales = (a['loc'], a['scale']) if tier == 'quick' else (a['loc'] + a['loc_extra'], a['scale'] + a['scale_extra'])
+    two = [(m, s) for m in locs for s in scales]
     families = [('normalpdf', two), ('lognormalpdf', two), ('logisticcdf', two), ('likelihoodregression', two),
                 ('loglikelihoodregression', two), ('uniformpdf', a['uni']), ('triangularpdf', a['tri'])]
     for dist, plist in families:
         kinds = list(DIST_KINDS)
         if dist in ('likelihoodregression', 'loglikelihoodregression'):
-            kinds = ['numeric', 'free', 'fixed', 'dict']  # documented argument type: Expression
+            kinds = ['numeric', 'free', 'fixed', 'dict', 'expr', 'column']  # documented argument type: Expression
         for kind in kinds:
             cfgs = [dict(dist=dist, params=list(p), kind=kind, nodes=nodes if (tier == 'thorough' or kind in ('num', 'free')) else 0,
-                         seed=seed) for p in plist]
+                         seed=seed, sample=(pi == 1 and kind == 'free' and dist in ('normalpdf', 'triangularpdf')))
+                    for pi, p in enumerate(plist)]
             t.append(dict(part='dist', cfgs=cfgs))
         if dist not in ('likelihoodregression', 'loglikelihoodregression'):
             t.append(dict(part='dist', cfgs=[dict(dist=dist, params=list(plist[0]), kind='default', nodes=nodes, seed=seed)]))
     # (seg)
     sc = seg_configs(a, tier)
     for i in range(0, len(sc), 12):
-        t.append(dict(part='seg', cfgs=[dict(c, seed=seed) for c in sc[i:i + 12]]))
+        t.append(dict(part='seg', cfgs=[dict(c, seed=seed, sample=(i == 24 and j == 0)) for j, c in enumerate(sc[i:i + 12])]))
     # (nest)
     nc = nest_configs(a, tier)
     for i in range(0, len(nc), 150):
-        t.append(dict(part='nest', cfgs=[dict(c, seed=seed) for c in nc[i:i + 150]]))
+        t.append(dict(part='nest', cfgs=[dict(c, seed=seed, sample=(i == 300 and j == 0)) for j, c in enumerate(nc[i:i + 150])]))
     return t
 
 
@@ -1127,12 +1178,15 @@ def run_task(task):
     f = CHECKS[task['part']]
     for cfg in task['cfgs']:
         f(cfg, rec)
-    if rec.evals and not rec.samples:
-        rec.sample(dict(part=task['part'], first_cfg=task['cfgs'][0]))
+    rec.count('evaluations_' + task['part'], rec.evals)
+    for v in rec.violations:
+        v['case'] = dict(v['case'], key=v['key'])  # replay re-executes the configuration and reports this clause
     return rec.result()
 
 
 def replay(case):
     rec = Rec()
     CHECKS[case['part']](case['cfg'], rec)
+    if case.get('key'):
+        return [v for v in rec.violations if v['key'] == case['key']]
     return rec.violations
